@@ -166,11 +166,18 @@ func (x *Exec) callFn(f *frame, ins ssa.Instruction, fn *ssa.Function, args, bin
 			args = []Value{x.U.Const(t.W, uint64(x.Cfg.SmallTables))}
 		}
 	}
-	if len(x.Cfg.NoResize) > 0 && (name == "(*"+xsyncPath+".Map).resize" || name == "(*"+xsyncPath+".MapOf).resize") {
-		if h, ok := args[2].(*Term); ok && h.IsConst() && x.Cfg.NoResize[int(h.Val)] {
-			// bound of this instance: executions that reach this resize request are outside it
-			x.Assume(g, x.U.False, fmt.Sprintf("this instance excludes executions that request a resize with hint %d (0=grow,1=shrink,2=clear)", h.Val))
-			return nil
+	if len(x.Cfg.NoResize) > 0 && (name == xsyncPath+".newMapTable" || name == xsyncPath+".newMapOfTable") {
+		// bound of this instance: executions in which resize actually builds a
+		// new table for an excluded hint are outside it (the cheap early-return
+		// paths of resize - e.g. a shrink request on a table at its minimum - stay inside)
+		caller := baseName(f.fn)
+		if caller == "(*"+xsyncPath+".Map).resize" || caller == "(*"+xsyncPath+".MapOf).resize" {
+			if len(f.fn.Params) == 3 {
+				if h, ok := f.env[f.fn.Params[2]].(*Term); ok && h.IsConst() && x.Cfg.NoResize[int(h.Val)] {
+					x.Assume(g, x.U.False, fmt.Sprintf("this instance excludes executions that rebuild the table with resize hint %d (0=grow,1=shrink,2=clear)", h.Val))
+					return x.zero(fn.Signature.Results().At(0).Type())
+				}
+			}
 		}
 	}
 	if pruneCalls[name] && fn.Signature.Results().Len() == 0 {
